@@ -57,8 +57,9 @@ theorem masked_iff_client (isServer : Bool) (b0 : Nat) (key : Key) (payload : By
     continuations. `_partial`: `EnvAdmissible` demands that the environment's flate answers pass the
     two checks of flateWriteWrapper.Close (real compress/flate always does; with an inconsistent
     answer the model — like the code — leaves a message writer open, see the kernel-checked
-    counterexample `WireWF.wire_wellformed_false`); `Admissible` excludes a prepared *data* message
-    sent while a message writer is open (finding F8). -/
+    counterexample `WireWF.wire_wellformed_false`); since the repair of finding F8 (WritePreparedMessage
+    of a data message first closes the message writer the application left open) `Admissible` no longer
+    excludes a prepared data message sent while a message writer is open — see the witness `witPOps`. -/
 theorem wire_wellformed_partial (s0 : W) (h0 : Fresh s0) (hf : s0.faults = []) (ops : List Op)
     (ha : WireWF.Admissible s0 ops) (he : WireWF.EnvAdmissible s0 ops) :
     ∃ fs, Spec.decodeStream (run s0 ops).wire = some fs ∧ Spec.WellFormed ⟨!s0.isServer, s0.nego⟩ fs :=
@@ -390,6 +391,56 @@ example : (run witZF witZOps).wire = [137, 130, 55, 250, 33, 61, 95, 147, 193, 1
     at the 4th transport call running `witZOps`, and the theorem applies -/
 example : Spec.WellFormed ⟨true, true⟩ (Spec.decodePrefixAux (run witZF witZOps).wire.length (run witZF witZOps).wire) :=
   wire_wellformed_prefix_partial witZF witZF_fresh witZOps witZFOps_adm witZFOps_env
+
+/-! a prepared data message in the middle of a fragmented message (finding F8, repaired) -/
+
+/-- a server connection, write buffer 4096, no compression -/
+def witP : W := newW true 4096 false false
+def witP_fresh : Fresh witP := ⟨rfl, rfl, rfl, rfl, rfl, by decide, by decide⟩
+/-- the prepared text message "hi" as one server frame -/
+def witHiImg : Bytes := [0x81, 0x02, 104, 105]
+/-- NextWriter(text); Write "Hello" (buffered, the message writer stays open); WritePreparedMessage(text "hi") -/
+def witPOps : List Op :=
+  [.nextWriter 1 [] [], .write 0 witHello [] false, .writePrepared 1 witHiImg [] []]
+
+/-- witness for `wire_wellformed_partial`: the program is `Admissible` although the prepared *data* message
+    is sent while a message writer is open (before the repair `Admissible` demanded `NoOpenWriter` here) -/
+def witPOps_adm : WireWF.Admissible witP witPOps := by
+  refine ⟨?_, trivial, ?_, trivial, ⟨⟨[witHiImg], ?_, by decide⟩, ?_⟩, ?_, trivial⟩
+  · simp [OpOK]
+  · simp [OpOK, witHello]
+  · intro f hf
+    rw [List.mem_singleton] at hf
+    subst hf
+    exact ⟨129, default, [104, 105], by decide, by decide, by decide +kernel⟩
+  · intro _ c hc; cases hc
+  · exact Or.inr ⟨⟨[⟨true, false, false, false, 1, none, [104, 105]⟩], by decide +kernel, by decide +kernel, by decide, by decide, by decide⟩,
+      Or.inl (by decide)⟩
+
+/-- … and a message writer really is open when the prepared message is sent -/
+example : ¬ WireWF.NoOpenWriter (run witP (witPOps.take 2)) := by
+  intro h
+  have h1 : (run witP (witPOps.take 2)).mws.all (fun m => m.err.isSome) = false := by decide +kernel
+  have h2 : (run witP (witPOps.take 2)).mws.all (fun m => m.err.isSome) = true := List.all_eq_true.mpr h
+  rw [h1] at h2; cases h2
+
+def witPOps_env : WireWF.EnvAdmissible witP witPOps := by
+  refine ⟨?_, trivial, ?_, trivial⟩
+  · intro h hh; cases hh
+  · intro _ h _ i sent hh
+    have h' : (run witP (witPOps.take 2)).handles = [Handle.plain 0] := by decide +kernel
+    have hh' : (run witP (witPOps.take 2)).handles[h]? = some (Handle.flate i true none sent) := hh
+    rw [h'] at hh'
+    cases h with
+    | zero => cases hh'
+    | succ n => cases hh'
+
+/-- non-vacuity of `wire_wellformed_partial` for the repaired case: the open text message is finished
+    first ("Hello", final), then the prepared "hi" follows -/
+example : ∃ fs, Spec.decodeStream (run witP witPOps).wire = some fs ∧ Spec.WellFormed ⟨false, false⟩ fs :=
+  wire_wellformed_partial witP witP_fresh rfl witPOps witPOps_adm witPOps_env
+
+example : (run witP witPOps).wire = [0x81, 0x05] ++ witHello ++ witHiImg := by decide +kernel
 
 /-! compressed messages: adapted from the witness of the identical theorem in WS/Props/C15.lean -/
 open WS.Content WS.CompressedWrite in
